@@ -170,7 +170,7 @@ ilog2 / leading_zeros / shifts (taken as documented), monotonicity of the heap n
 
 prop('C15', """
 Static analysis (MIR/SSA: constant propagation of the index slice, effect summaries of the loop body, exponent algebra).
-The range arguments and the mask words stay opaque; nothing is evaluated on an input. Decided clauses: the positions the two
+The range arguments and the mask words stay opaque; no mask is ever computed for an input (the one place where the two coordinates are looked at is the linear test in front of the root answer, which is solved over the lattice of bucket ranges). Decided clauses: the positions the two
 mask functions touch are a compile-time constant of the program - the analysis folds the loop counters (loops with constant
 trip counts are unrolled in the analysis) and summarises every round as `word[j] |= f(word[i1], word[i2])` with f given by
 its truth table over the bits read. Visit mask: the summaries are exactly, for every internal node p of the 2^POWER-leaf
